@@ -1074,17 +1074,21 @@ def c03_flags(case, outcome=None):
         per = {}
         for i in b:
             m = seq[i]
-            d = per.setdefault(uids[i], {'vac': set(), 'occ': set(), 'del': False})
+            d = per.setdefault(uids[i], {'vac': set(), 'reused': False, 'del': False})
+            # reuse = a name is occupied AFTER it was vacated in this batch (two holders of
+            # one name); AddField(f) .. DeleteField(f) of the same holder is not reuse
             if m['kind'] == 'DeleteField':
                 d['vac'].add(m['name'])
                 d['del'] = True
             elif m['kind'] == 'RenameField':
+                if m['new'] in d['vac']:
+                    d['reused'] = True
                 d['vac'].add(m['old'])
-                d['occ'].add(m['new'])
             elif m['kind'] == 'AddField':
-                d['occ'].add(m['field']['name'])
+                if m['field']['name'] in d['vac']:
+                    d['reused'] = True
         for u, d in per.items():
-            if d['del'] and d['vac'] & d['occ']:
+            if d['del'] and d['reused']:
                 flag(u, 'delete_name_reuse')
     # a column is renamed inside a batch and the same batch (a) takes the vacated field /
     # column name for a new field, or (b) changes unique / db_index / db_column of the renamed
